@@ -92,6 +92,9 @@ def extract_nd_array(
     To implement for another type, register via the singledispatch mechanism.
     """
 
+    if isinstance(data, Iterator):
+        # Numpy cannot iterators convert directly
+        data = list(data)
     try:
         array: np.ndarray = np.asarray(data, dtype=float)
     except ValueError as exc:
